@@ -1343,6 +1343,13 @@ class ProcessPoolExecutor(Executor):
                 executor_manager_thread.join()
                 _threads_wakeups.pop(executor_manager_thread, None)
 
+        if executor_manager_thread is not None and not wait:
+            # The manager thread is still running: it may still need these
+            # objects to re-spawn workers that timed out while some work is
+            # pending, and a later shutdown(wait=True) must be able to join
+            # it. It closes the queues itself when it terminates.
+            return
+
         # To reduce the risk of opening too many files, remove references to
         # objects that use file descriptors.
         self._executor_manager_thread = None
